@@ -277,6 +277,25 @@ func (w *World) iifeDeferHelpers(overlay map[string][]byte) (map[string][]byte, 
 		if w.bracketHelperOf(h) != nil {
 			continue
 		}
+		// a helper whose deferred calls only release the lock or transaction bracket it took itself is a
+		// self-bracketing unit: the lock analysis follows calls into it, and its body is analysed as a function
+		// of its own (a literal's flow is not)
+		onlyReleases, defers := true, 0
+		ast.Inspect(h.Decl.Body, func(x ast.Node) bool {
+			if _, isLit := x.(*ast.FuncLit); isLit {
+				return false
+			}
+			if d, ok := x.(*ast.DeferStmt); ok {
+				defers++
+				if _, release, isLock := w.Locks().lockCall(h, d.Call); !isLock || !release {
+					onlyReleases = false
+				}
+			}
+			return true
+		})
+		if defers > 0 && onlyReleases {
+			continue
+		}
 		htf, hname := w.fileOf(h.Decl.Pos())
 		hsrc := readSource(hname, overlay)
 		htext := func(n ast.Node) string { return string(hsrc[htf.Offset(n.Pos()):htf.Offset(n.End())]) }
@@ -369,4 +388,703 @@ func (w *World) iifeDeferHelpers(overlay map[string][]byte) (map[string][]byte, 
 		return nil, nil
 	}
 	return out, done
+}
+
+// restoreOrientation: a comparison that the pinned version of the function writes one way round and the current
+// one the other way round (`b > a` for `a < b`, `nil == x` for `x == nil`, `0 == len(s)`) is turned back. The
+// two forms are the same expression; the rules quote the pinned spelling in several places.
+func (w *World) restoreOrientation(overlay map[string][]byte) (map[string][]byte, []string) {
+	edits := map[string][]textEdit{}
+	var done []string
+	mir := map[token.Token]token.Token{token.EQL: token.EQL, token.NEQ: token.NEQ, token.LSS: token.GTR, token.GTR: token.LSS, token.LEQ: token.GEQ, token.GEQ: token.LEQ}
+	for _, name := range w.SortedFuncNames() {
+		f := w.Funcs[name]
+		if w.vendoredFunc(f) {
+			continue
+		}
+		pc, ok := pinnedCmps[name]
+		if !ok || f.Decl.Body == nil {
+			continue
+		}
+		known := map[string]bool{}
+		for _, k := range strings.Split(pc, " | ") {
+			known[k] = true
+		}
+		tf, fname := w.fileOf(f.Decl.Pos())
+		src := readSource(fname, overlay)
+		n := 0
+		ast.Inspect(f.Decl.Body, func(x ast.Node) bool {
+			be, ok := x.(*ast.BinaryExpr)
+			if !ok {
+				return true
+			}
+			m, isCmp := mir[be.Op]
+			if !isCmp || known[exprKey(be)] {
+				return true
+			}
+			flipped := &ast.BinaryExpr{X: be.Y, Op: m, Y: be.X}
+			if !known[exprKey(flipped)] {
+				return true
+			}
+			a, m1, m2, b := tf.Offset(be.X.Pos()), tf.Offset(be.X.End()), tf.Offset(be.Y.Pos()), tf.Offset(be.Y.End())
+			edits[fname] = append(edits[fname], textEdit{a, b, string(src[m2:b]) + " " + m.String() + " " + string(src[a:m1])})
+			n++
+			return false
+		})
+		if n > 0 {
+			done = append(done, name)
+		}
+	}
+	if len(done) == 0 {
+		return nil, nil
+	}
+	out := applyEdits(w, overlay, edits)
+	if out == nil {
+		return nil, nil
+	}
+	return out, done
+}
+
+// canonIncDec: `x += 1` and `x -= 1` as statements are written `x++` / `x--` (the reference tree has no other
+// spelling; the two are the same statement).
+func (w *World) canonIncDec(overlay map[string][]byte) (map[string][]byte, []string) {
+	edits := map[string][]textEdit{}
+	var done []string
+	for _, name := range w.SortedFuncNames() {
+		f := w.Funcs[name]
+		if w.vendoredFunc(f) {
+			continue
+		}
+		if f.Decl.Body == nil {
+			continue
+		}
+		tf, fname := w.fileOf(f.Decl.Pos())
+		src := readSource(fname, overlay)
+		n := 0
+		ast.Inspect(f.Decl.Body, func(x ast.Node) bool {
+			// `var x = e` in a body is `x := e`
+			if ds, ok := x.(*ast.DeclStmt); ok {
+				if gd, ok := ds.Decl.(*ast.GenDecl); ok && gd.Tok == token.VAR && !gd.Lparen.IsValid() && len(gd.Specs) == 1 {
+					if vs, ok := gd.Specs[0].(*ast.ValueSpec); ok && vs.Type == nil && len(vs.Names) == 1 && len(vs.Values) == 1 && vs.Names[0].Name != "_" {
+						a, b := tf.Offset(ds.Pos()), tf.Offset(vs.Values[0].Pos())
+						edits[fname] = append(edits[fname], textEdit{a, b, vs.Names[0].Name + " := "})
+						n++
+					}
+				}
+				return true
+			}
+			as, ok := x.(*ast.AssignStmt)
+			if !ok || len(as.Lhs) != 1 || len(as.Rhs) != 1 {
+				return true
+			}
+			// `x = x op e` is `x op= e`
+			if as.Tok == token.ASSIGN {
+				be, ok := ast.Unparen(as.Rhs[0]).(*ast.BinaryExpr)
+				if !ok || !pureExpr(as.Lhs[0]) {
+					return true
+				}
+				switch be.Op {
+				case token.ADD, token.SUB, token.MUL, token.OR, token.AND:
+				default:
+					return true
+				}
+				var other ast.Expr
+				if exprKey(be.X) == exprKey(as.Lhs[0]) {
+					other = be.Y
+				} else if exprKey(be.Y) == exprKey(as.Lhs[0]) && be.Op != token.SUB && pureExpr(be.X) {
+					if b, ok := f.TypeOf(as.Lhs[0]).Underlying().(*types.Basic); ok && b.Info()&types.IsInteger != 0 {
+						other = be.X
+					}
+				}
+				if other == nil {
+					return true
+				}
+				a, m, b := tf.Offset(as.Pos()), tf.Offset(as.Lhs[0].End()), tf.Offset(as.End())
+				edits[fname] = append(edits[fname], textEdit{a, b, string(src[a:m]) + " " + be.Op.String() + "= " + string(src[tf.Offset(other.Pos()):tf.Offset(other.End())])})
+				n++
+				return true
+			}
+			if as.Tok != token.ADD_ASSIGN && as.Tok != token.SUB_ASSIGN {
+				return true
+			}
+			if cv := f.constOf(as.Rhs[0]); cv == nil || cv.String() != "1" {
+				return true
+			}
+			if b, ok := f.TypeOf(as.Lhs[0]).Underlying().(*types.Basic); !ok || b.Info()&types.IsInteger == 0 {
+				return true
+			}
+			op := "++"
+			if as.Tok == token.SUB_ASSIGN {
+				op = "--"
+			}
+			a, m, b := tf.Offset(as.Pos()), tf.Offset(as.Lhs[0].End()), tf.Offset(as.End())
+			edits[fname] = append(edits[fname], textEdit{a, b, string(src[a:m]) + op})
+			n++
+			return true
+		})
+		if n > 0 {
+			done = append(done, name)
+		}
+	}
+	if len(done) == 0 {
+		return nil, nil
+	}
+	out := applyEdits(w, overlay, edits)
+	if out == nil {
+		return nil, nil
+	}
+	return out, done
+}
+
+// restoreRangeValues: `for i := range S { v := S[i]; … }` over a collection the pinned function ranged over by
+// value is written `for i, v := range S { … }` again (`_` for i when the body does not use it otherwise).
+func (w *World) restoreRangeValues(overlay map[string][]byte) (map[string][]byte, []string) {
+	edits := map[string][]textEdit{}
+	var done []string
+	for _, name := range w.SortedFuncNames() {
+		f := w.Funcs[name]
+		if w.vendoredFunc(f) {
+			continue
+		}
+		pr, ok := pinnedRanges[name]
+		if !ok || f.Decl.Body == nil {
+			continue
+		}
+		pinnedR := map[string]bool{}
+		for _, r := range strings.Split(pr, " | ") {
+			pinnedR[r] = true
+		}
+		info := f.Pkg.TypesInfo
+		tf, fname := w.fileOf(f.Decl.Pos())
+		src := readSource(fname, overlay)
+		text := func(n ast.Node) string { return string(src[tf.Offset(n.Pos()):tf.Offset(n.End())]) }
+		n := 0
+		ast.Inspect(f.Decl.Body, func(x ast.Node) bool {
+			rs, ok := x.(*ast.RangeStmt)
+			if !ok || rs.Tok != token.DEFINE || rs.Value != nil || rs.Key == nil || len(rs.Body.List) == 0 {
+				return true
+			}
+			k, ok := rs.Key.(*ast.Ident)
+			if !ok || k.Name == "_" || !pinnedR[exprKey(rs.X)] {
+				return true
+			}
+			first, ok := rs.Body.List[0].(*ast.AssignStmt)
+			if !ok || first.Tok != token.DEFINE || len(first.Lhs) != 1 || len(first.Rhs) != 1 {
+				return true
+			}
+			v, ok := first.Lhs[0].(*ast.Ident)
+			ix, ok2 := ast.Unparen(first.Rhs[0]).(*ast.IndexExpr)
+			if !ok || !ok2 || exprKey(ix.X) != exprKey(rs.X) {
+				return true
+			}
+			if id, ok := ast.Unparen(ix.Index).(*ast.Ident); !ok || info.ObjectOf(id) != info.Defs[k] {
+				return true
+			}
+			// S is not reassigned in the body, v is not assigned again
+			bad := false
+			vobj := info.Defs[v]
+			ast.Inspect(rs.Body, func(y ast.Node) bool {
+				if as, ok := y.(*ast.AssignStmt); ok && as != first {
+					for _, l := range as.Lhs {
+						if exprKey(l) == exprKey(rs.X) {
+							bad = true
+						}
+						if id, ok := ast.Unparen(l).(*ast.Ident); ok && vobj != nil && info.ObjectOf(id) == vobj {
+							bad = true
+						}
+					}
+				}
+				return true
+			})
+			if bad {
+				return true
+			}
+			uses := 0
+			ast.Inspect(rs.Body, func(y ast.Node) bool {
+				if id, ok := y.(*ast.Ident); ok && info.ObjectOf(id) == info.Defs[k] {
+					uses++
+				}
+				return true
+			})
+			key := k.Name
+			if uses == 1 {
+				key = "_"
+			}
+			edits[fname] = append(edits[fname],
+				textEdit{tf.Offset(rs.Pos()), tf.Offset(rs.Body.Lbrace), "for " + key + ", " + v.Name + " := range " + text(rs.X) + " "},
+				textEdit{tf.Offset(first.Pos()), tf.Offset(first.End()), ""})
+			n++
+			return true
+		})
+		if n > 0 {
+			done = append(done, name)
+		}
+	}
+	if len(done) == 0 {
+		return nil, nil
+	}
+	out := applyEdits(w, overlay, edits)
+	if out == nil {
+		return nil, nil
+	}
+	return out, done
+}
+
+// pureExpr: identifiers, field selections and indexings of those by pure expressions (no calls, no receives).
+func pureExpr(e ast.Expr) bool {
+	switch x := ast.Unparen(e).(type) {
+	case *ast.Ident, *ast.BasicLit:
+		return true
+	case *ast.SelectorExpr:
+		return pureExpr(x.X)
+	case *ast.IndexExpr:
+		return pureExpr(x.X) && pureExpr(x.Index)
+	case *ast.StarExpr:
+		return pureExpr(x.X)
+	}
+	return false
+}
+
+// sinkSingleUse: a new local `t := e` (e not pure, so normalizeLocals leaves it) that is used exactly once, in
+// the statement that follows it, at a place that statement evaluates first and exactly once, is written into
+// that place again: `t := g(x); f(t)` is `f(g(x))`.
+func (w *World) sinkSingleUse(overlay map[string][]byte) (map[string][]byte, []string) {
+	edits := map[string][]textEdit{}
+	var done []string
+	for _, name := range w.SortedFuncNames() {
+		f := w.Funcs[name]
+		if w.vendoredFunc(f) {
+			continue
+		}
+		pinned, ok := pinnedLocals[name]
+		if !ok || f.Decl.Body == nil {
+			continue
+		}
+		known := map[string]bool{}
+		for _, n := range strings.Fields(pinned) {
+			known[n] = true
+		}
+		info := f.Pkg.TypesInfo
+		tf, fname := w.fileOf(f.Decl.Pos())
+		src := readSource(fname, overlay)
+		uses := map[types.Object]int{}
+		ast.Inspect(f.Decl.Body, func(x ast.Node) bool {
+			if id, ok := x.(*ast.Ident); ok {
+				if o := info.Uses[id]; o != nil {
+					uses[o]++
+				}
+			}
+			return true
+		})
+		n := 0
+		var visit func(list []ast.Stmt)
+		visit = func(list []ast.Stmt) {
+			for i := 0; i+1 < len(list); i++ {
+				as, ok := list[i].(*ast.AssignStmt)
+				if !ok || as.Tok != token.DEFINE || len(as.Rhs) != 1 {
+					continue
+				}
+				// `a, b := f(…)` + `return a, b`, all new and used only there, is `return f(…)`
+				if ret, isRet := list[i+1].(*ast.ReturnStmt); isRet && len(as.Lhs) > 1 && len(ret.Results) == len(as.Lhs) {
+					all := true
+					for j, l := range as.Lhs {
+						lid, ok := l.(*ast.Ident)
+						rid, ok2 := ret.Results[j].(*ast.Ident)
+						if !ok || !ok2 || lid.Name == "_" || known[lid.Name] || info.Defs[lid] == nil || info.Uses[rid] != info.Defs[lid] || uses[info.Defs[lid]] != 1 {
+							all = false
+							break
+						}
+					}
+					if _, isCall := ast.Unparen(as.Rhs[0]).(*ast.CallExpr); all && isCall {
+						rhs := string(src[tf.Offset(as.Rhs[0].Pos()):tf.Offset(as.Rhs[0].End())])
+						edits[fname] = append(edits[fname],
+							textEdit{tf.Offset(as.Pos()), tf.Offset(as.End()), ""},
+							textEdit{tf.Offset(ret.Results[0].Pos()), tf.Offset(ret.Results[len(ret.Results)-1].End()), rhs})
+						n++
+						i++
+					}
+					continue
+				}
+				if len(as.Lhs) != 1 {
+					continue
+				}
+				id, ok := as.Lhs[0].(*ast.Ident)
+				if !ok || id.Name == "_" || known[id.Name] {
+					continue
+				}
+				obj := info.Defs[id]
+				if obj == nil || uses[obj] != 1 {
+					continue
+				}
+				if _, isLit := ast.Unparen(as.Rhs[0]).(*ast.FuncLit); isLit {
+					continue
+				}
+				// the type the variable got must be the type the place expects: an untyped constant or an
+				// interface conversion could differ; only identical static types are moved
+				var roots []ast.Expr
+				switch s := list[i+1].(type) {
+				case *ast.ExprStmt:
+					roots = []ast.Expr{s.X}
+				case *ast.AssignStmt:
+					pure := true
+					for _, l := range s.Lhs {
+						if !w.pureExpr(f, l) {
+							pure = false
+						}
+					}
+					if pure {
+						roots = s.Rhs
+					}
+				case *ast.ReturnStmt:
+					roots = s.Results
+				case *ast.IfStmt:
+					if s.Init == nil {
+						roots = []ast.Expr{s.Cond}
+					}
+				case *ast.SwitchStmt:
+					if s.Init == nil && s.Tag != nil {
+						roots = []ast.Expr{s.Tag}
+					}
+				case *ast.RangeStmt:
+					roots = []ast.Expr{s.X}
+				case *ast.DeferStmt:
+					roots = []ast.Expr{s.Call}
+				case *ast.GoStmt:
+					roots = []ast.Expr{s.Call}
+				}
+				var use *ast.Ident
+				blocked := false
+				var first func(e ast.Expr) bool // true: the use was found as the first impure thing evaluated in e
+				first = func(e ast.Expr) bool {
+					if blocked || e == nil {
+						return false
+					}
+					switch x := e.(type) {
+					case *ast.Ident:
+						if info.Uses[x] == obj {
+							use = x
+							return true
+						}
+						return false
+					case *ast.ParenExpr:
+						return first(x.X)
+					case *ast.SelectorExpr:
+						return first(x.X)
+					case *ast.StarExpr:
+						return first(x.X)
+					case *ast.UnaryExpr:
+						if x.Op == token.AND || x.Op == token.ARROW {
+							if mentions(info, x.X, obj) {
+								blocked = true
+							}
+							if !w.pureExpr(f, x) {
+								blocked = true
+							}
+							return false
+						}
+						return first(x.X)
+					case *ast.TypeAssertExpr:
+						return first(x.X)
+					case *ast.IndexExpr:
+						if first(x.X) {
+							return true
+						}
+						if !w.pureExpr(f, x.X) {
+							blocked = true
+							return false
+						}
+						return first(x.Index)
+					case *ast.SliceExpr:
+						for _, sub := range []ast.Expr{x.X, x.Low, x.High, x.Max} {
+							if sub == nil {
+								continue
+							}
+							if first(sub) {
+								return true
+							}
+							if !w.pureExpr(f, sub) {
+								blocked = true
+								return false
+							}
+						}
+						return false
+					case *ast.BinaryExpr:
+						if first(x.X) {
+							return true
+						}
+						if x.Op == token.LAND || x.Op == token.LOR {
+							if mentions(info, x.Y, obj) {
+								blocked = true
+							}
+							return false
+						}
+						if !w.pureExpr(f, x.X) {
+							blocked = true
+							return false
+						}
+						return first(x.Y)
+					case *ast.CallExpr:
+						if first(x.Fun) {
+							return true
+						}
+						if tv, isT := info.Types[x.Fun]; !(isT && (tv.IsType() || tv.IsBuiltin())) && !w.pureExpr(f, x.Fun) {
+							blocked = true
+							return false
+						}
+						for _, a := range x.Args {
+							if first(a) {
+								return true
+							}
+							if !w.pureExpr(f, a) {
+								blocked = true
+								return false
+							}
+						}
+						return false
+					case *ast.CompositeLit:
+						for _, el := range x.Elts {
+							v := el
+							if kv, ok := el.(*ast.KeyValueExpr); ok {
+								v = kv.Value
+								if _, isStruct := info.TypeOf(x).Underlying().(*types.Struct); !isStruct {
+									if first(kv.Key) {
+										return true
+									}
+									if !w.pureExpr(f, kv.Key) {
+										blocked = true
+										return false
+									}
+								}
+							}
+							if first(v) {
+								return true
+							}
+							if !w.pureExpr(f, v) {
+								blocked = true
+								return false
+							}
+						}
+						return false
+					case *ast.KeyValueExpr:
+						return false
+					case *ast.FuncLit:
+						if mentions(info, x, obj) {
+							blocked = true
+						}
+						return false
+					}
+					return false
+				}
+				found := false
+				for _, r := range roots {
+					if first(r) {
+						found = true
+						break
+					}
+					if blocked || !w.pureExpr(f, r) {
+						break
+					}
+				}
+				if !found || blocked || use == nil {
+					continue
+				}
+				// same static type at the place as the variable has
+				if tv, ok := info.Types[as.Rhs[0]]; !ok || tv.Value != nil || !types.Identical(tv.Type, obj.Type()) {
+					continue
+				}
+				rhs := string(src[tf.Offset(as.Rhs[0].Pos()):tf.Offset(as.Rhs[0].End())])
+				switch ast.Unparen(as.Rhs[0]).(type) {
+				case *ast.BinaryExpr, *ast.UnaryExpr, *ast.StarExpr:
+					rhs = "(" + rhs + ")"
+				}
+				edits[fname] = append(edits[fname],
+					textEdit{tf.Offset(as.Pos()), tf.Offset(as.End()), ""},
+					textEdit{tf.Offset(use.Pos()), tf.Offset(use.End()), rhs})
+				n++
+				i++ // the next statement is not a candidate holder in this round
+			}
+		}
+		ast.Inspect(f.Decl.Body, func(x ast.Node) bool {
+			switch b := x.(type) {
+			case *ast.BlockStmt:
+				visit(b.List)
+			case *ast.CaseClause:
+				visit(b.Body)
+			case *ast.CommClause:
+				visit(b.Body)
+			}
+			return true
+		})
+		if n > 0 {
+			done = append(done, name)
+		}
+	}
+	if len(done) == 0 {
+		return nil, nil
+	}
+	out := applyEdits(w, overlay, edits)
+	if out == nil {
+		return nil, nil
+	}
+	return out, done
+}
+
+func mentions(info *types.Info, n ast.Node, obj types.Object) bool {
+	found := false
+	ast.Inspect(n, func(x ast.Node) bool {
+		if id, ok := x.(*ast.Ident); ok && info.Uses[id] == obj {
+			found = true
+		}
+		return !found
+	})
+	return found
+}
+
+// restoreForClauses: `i := a` followed by `for cond { B; i++ }` (cond mentions i, B has no continue of this
+// loop, i is not used after the loop in its block) is the three-clause loop `for i := a; cond; i++ { B }`;
+// a block that holds nothing but the result is unwrapped.
+func (w *World) restoreForClauses(overlay map[string][]byte) (map[string][]byte, []string) {
+	edits := map[string][]textEdit{}
+	var done []string
+	for _, name := range w.SortedFuncNames() {
+		f := w.Funcs[name]
+		if w.vendoredFunc(f) {
+			continue
+		}
+		if f.Decl.Body == nil {
+			continue
+		}
+		info := f.Pkg.TypesInfo
+		tf, fname := w.fileOf(f.Decl.Pos())
+		src := readSource(fname, overlay)
+		text := func(n ast.Node) string { return string(src[tf.Offset(n.Pos()):tf.Offset(n.End())]) }
+		n := 0
+		var visit func(list []ast.Stmt, blk *ast.BlockStmt, nested bool)
+		visit = func(list []ast.Stmt, blk *ast.BlockStmt, nested bool) {
+			for i := 0; i+1 < len(list); i++ {
+				as, ok := list[i].(*ast.AssignStmt)
+				if !ok || as.Tok != token.DEFINE || len(as.Lhs) != 1 || len(as.Rhs) != 1 {
+					continue
+				}
+				iv, ok := as.Lhs[0].(*ast.Ident)
+				if !ok || info.Defs[iv] == nil {
+					continue
+				}
+				obj := info.Defs[iv]
+				fs, ok := list[i+1].(*ast.ForStmt)
+				if !ok || fs.Init != nil || fs.Post != nil || fs.Cond == nil || len(fs.Body.List) == 0 || !mentions(info, fs.Cond, obj) {
+					continue
+				}
+				last := fs.Body.List[len(fs.Body.List)-1]
+				isStep := false
+				switch s := last.(type) {
+				case *ast.IncDecStmt:
+					if id, ok := ast.Unparen(s.X).(*ast.Ident); ok && info.Uses[id] == obj {
+						isStep = true
+					}
+				case *ast.AssignStmt:
+					if len(s.Lhs) == 1 && s.Tok != token.DEFINE {
+						if id, ok := ast.Unparen(s.Lhs[0]).(*ast.Ident); ok && info.Uses[id] == obj {
+							isStep = true
+						}
+					}
+				}
+				if !isStep {
+					continue
+				}
+				bad := false
+				ast.Inspect(fs.Body, func(y ast.Node) bool {
+					switch z := y.(type) {
+					case *ast.ForStmt, *ast.RangeStmt:
+						if y != ast.Node(fs) {
+							// a continue inside a nested loop belongs to that loop unless labelled
+							ast.Inspect(z, func(q ast.Node) bool {
+								if b, ok := q.(*ast.BranchStmt); ok && b.Label != nil {
+									bad = true
+								}
+								return true
+							})
+							return false
+						}
+					case *ast.FuncLit:
+						if mentions(info, z, obj) {
+							bad = true // the literal would capture a different variable
+						}
+						return false
+					case *ast.BranchStmt:
+						if z.Tok == token.CONTINUE || z.Label != nil {
+							bad = true
+						}
+					}
+					return true
+				})
+				for _, later := range list[i+2:] {
+					if mentions(info, later, obj) {
+						bad = true
+					}
+				}
+				if bad {
+					continue
+				}
+				body := string(src[tf.Offset(fs.Body.Lbrace)+1 : tf.Offset(last.Pos())])
+				loop := "for " + text(as) + "; " + text(fs.Cond) + "; " + text(last) + " {" + body + "}"
+				if nested && len(list) == 2 && blk != nil {
+					edits[fname] = append(edits[fname], textEdit{tf.Offset(blk.Pos()), tf.Offset(blk.End()), loop})
+				} else {
+					edits[fname] = append(edits[fname], textEdit{tf.Offset(as.Pos()), tf.Offset(fs.End()), loop})
+				}
+				n++
+				return
+			}
+		}
+		var stack []ast.Node
+		ast.Inspect(f.Decl.Body, func(x ast.Node) bool {
+			if x == nil {
+				stack = stack[:len(stack)-1]
+				return true
+			}
+			var parent ast.Node
+			if len(stack) > 0 {
+				parent = stack[len(stack)-1]
+			}
+			stack = append(stack, x)
+			if n > 0 {
+				return true
+			}
+			switch b := x.(type) {
+			case *ast.BlockStmt:
+				// a block statement standing on its own in a statement list (not the body of anything)
+				standalone := false
+				switch pp := parent.(type) {
+				case *ast.BlockStmt:
+					standalone = true
+				case *ast.CaseClause:
+					standalone = true
+					_ = pp
+				}
+				visit(b.List, b, standalone)
+			case *ast.CaseClause:
+				visit(b.Body, nil, false)
+			}
+			return true
+		})
+		if n > 0 {
+			done = append(done, name)
+		}
+	}
+	if len(done) == 0 {
+		return nil, nil
+	}
+	out := applyEdits(w, overlay, edits)
+	if out == nil {
+		return nil, nil
+	}
+	return out, done
+}
+
+// vendoredFunc: functions of the two vendored library copies are compared with their upstream as written and
+// are never respelled.
+func (w *World) vendoredFunc(f *Func) bool {
+	fn := w.Fset.Position(f.Decl.Pos()).Filename
+	return strings.HasSuffix(fn, "go_scanner.go") || strings.HasSuffix(fn, "go_terminal.go")
 }
